@@ -108,18 +108,22 @@ type limCase struct {
 	LogDepth int  // > 0: the configured handler is the library's own goz.LogPanic(logger, LogDepth); the logger must receive one line per panic naming the value
 	WaitForm int  // how "Wait() without timeout" is spelled: 0 l.Wait(), 1 l.Wait(empty...) with an empty non-nil slice, 2 with a nil slice
 	Churn    int  // this many functions that return at once are pushed through the Limiter before the final saturation probe (counters inside the Limiter must not drift)
+	Crowd    int  // > 0: this many unrelated goroutines are parked in the process for the whole scenario
+	Fluent   bool // afterwards: NewLimiter(n).SetPanicHandler(h).Go(f) as one expression - the handle is dropped at once -, collections are forced while f is parked, then f panics: the handler must still be told
 	MsgLen   int  // > 0: panic messages (string panics, error panics) are padded to exactly this many bytes
 	Expire   bool // (not under the race detector) a timed Wait expires while functions run; after they finished the Limiter is used again
 }
 
 func gen(t *rapid.T) (c limCase) {
 	c = limCase{Limit: rapid.OneOf(rapid.IntRange(1, 6), rapid.IntRange(-2, 6)).Draw(t, "limit"), Handler: rapid.IntRange(0, 3).Draw(t, "handler") != 0,
-		Procs: rapid.SampledFrom([]int{1, 2, 4, 16}).Draw(t, "procs"), Timed: rapid.Bool().Draw(t, "timed"), Twin: rapid.IntRange(0, 3).Draw(t, "twin") == 0}
+		Procs: rapid.SampledFrom([]int{1, 2, 3, 4, 5, 6, 16}).Draw(t, "procs"), Timed: rapid.Bool().Draw(t, "timed"), Twin: rapid.IntRange(0, 3).Draw(t, "twin") == 0}
 	defer func() {
 		c.Expire = rapid.IntRange(0, 2).Draw(t, "expire") == 0
 		c.WaitForm = rapid.SampledFrom([]int{0, 0, 1, 2}).Draw(t, "waitForm")
 		c.LogDepth = rapid.SampledFrom([]int{0, 0, 0, 0, 1, 5, 33, 64, 500}).Draw(t, "logDepth")
 		c.Warmup = rapid.IntRange(0, 3).Draw(t, "warmup") == 0
+		c.Crowd = rapid.SampledFrom([]int{0, 0, 0, 0, 0, 0, 0, 0, 0, 0, 0, 0, 0, 0, 0, 0, 0, 0, 0, 0, 0, 0, 0, 0, 0, 0, 0, 0, 0, 0, 0, 0, 0, 0, 0, 0, 0, 0, 0, 0, 0, 0, 0, 0, 0, 0, 0, 300, 4200, 5000}).Draw(t, "crowd")
+		c.Fluent = rapid.IntRange(0, 15).Draw(t, "fluent") == 0
 		c.MsgLen = rapid.SampledFrom([]int{0, 0, 0, 0, 0, 0, 15, 16, 17, 63, 64, 65, 127, 128, 129, 255, 256, 257, 511, 512, 513, 1023, 1024, 1025, 4095, 4096, 4097, 65535, 65536, 65537}).Draw(t, "msgLen")
 		if !c.Handler && c.MsgLen > 1025 {
 			c.MsgLen = 1025 // the default reporter writes to the standard output of the test process: keep that small
@@ -262,7 +266,7 @@ func waitingState(head string) bool {
 }
 
 func goroutineState() (st gstate) {
-	buf := make([]byte, 1<<20)
+	buf := dumpBuf()
 	n := runtime.Stack(buf, true)
 	st.truncated = n == len(buf)
 	for _, g := range strings.Split(string(buf[:n]), "\n\n") {
@@ -298,7 +302,7 @@ func goroutineState() (st gstate) {
 // waiterParked reports whether a goroutine inside Limiter.Wait is parked (it will stay so until the
 // functions finish).
 func waiterParked() bool {
-	buf := make([]byte, 1<<18)
+	buf := dumpBuf()
 	n := runtime.Stack(buf, true)
 	for _, g := range strings.Split(string(buf[:n]), "\n\n") {
 		if strings.Contains(g, "goz.(*Limiter).Wait") {
@@ -365,8 +369,13 @@ func churnLoop(l *goz.Limiter, fn func(), n int, submitted *int64, done chan str
 
 // limiterWorkers counts goroutines with a frame of package goz other than the churn submitter and the functions
 // of the twin Limiter.
+// dumpSize is the buffer for goroutine dumps (larger while a crowd of unrelated goroutines is parked).
+var dumpSize atomic.Int64
+
+func dumpBuf() []byte { return make([]byte, max(1<<20, int(dumpSize.Load()))) }
+
 func limiterWorkers() int {
-	buf := make([]byte, 1<<20)
+	buf := dumpBuf()
 	n := runtime.Stack(buf, true)
 	if n == len(buf) {
 		return 1 // truncated dump: no conclusion
@@ -379,6 +388,46 @@ func limiterWorkers() int {
 		k++
 	}
 	return k
+}
+
+// fluent: the Limiter is built, configured and used in one expression, so the program holds no reference to it
+// while its function runs; collections (and the finalizer goroutine) get their chance while the function is
+// parked; then it panics. The configured handler must be told, and the worker must finish.
+func fluent(n int, r *pb.Rec) error {
+	gate := make(chan struct{})
+	var handled atomic.Value
+	var inside atomic.Int32
+	goz.NewLimiter(n).SetPanicHandler(func(p any) { handled.Store(p) }).Go(func() {
+		inside.Add(1)
+		<-gate
+		panic("late panic of a function whose Limiter the program no longer references")
+	})
+	for deadline := time.Now().Add(20 * time.Second); inside.Load() == 0; {
+		if time.Now().After(deadline) {
+			close(gate)
+			return inconclusive{"fluent scenario: the function did not start within 20s"}
+		}
+		runtime.Gosched()
+	}
+	for i := 0; i < 3; i++ {
+		runtime.GC()
+		time.Sleep(time.Millisecond) // lets the finalizer goroutine run; only makes the scenario more telling, decides nothing
+	}
+	close(gate)
+	for deadline := time.Now().Add(20 * time.Second); ; {
+		if handled.Load() != nil {
+			break
+		}
+		if limiterWorkers() == 0 && handled.Load() == nil {
+			return fmt.Errorf("NewLimiter(%d).SetPanicHandler(h).Go(f): f panicked after garbage collections had run while it was parked (the program held no reference to the Limiter any more); the worker goroutine is gone and the configured handler was never called", n)
+		}
+		if time.Now().After(deadline) {
+			return inconclusive{"fluent scenario: neither handler call nor worker exit within 20s"}
+		}
+		time.Sleep(200 * time.Microsecond)
+	}
+	r.Class("Limiter used as one expression, collections while its function is parked, late panic")
+	return nil
 }
 
 // waitUntimed calls Wait without a timeout in one of its spellings.
@@ -452,7 +501,7 @@ func awaitWait(done <-chan struct{}, what string) error {
 	}
 }
 
-func run(c limCase, r *pb.Rec) error {
+func run(c limCase, r *pb.Rec) (err error) {
 	if len(c.Tasks) == 0 || len(c.Tasks) > 64 || c.Limit > 32 {
 		return nil
 	}
@@ -462,6 +511,26 @@ func run(c limCase, r *pb.Rec) error {
 	}
 	if c.Procs >= 1 {
 		defer runtime.GOMAXPROCS(runtime.GOMAXPROCS(c.Procs))
+	}
+	if c.Crowd > 0 && c.Crowd <= 20000 {
+		// a process that is busy with other things: thousands of goroutines that have nothing to do with the Limiter
+		release := make(chan struct{})
+		var up sync.WaitGroup
+		up.Add(c.Crowd)
+		for i := 0; i < c.Crowd; i++ {
+			go func() { up.Done(); <-release }()
+		}
+		up.Wait()
+		dumpSize.Store(int64(4<<20 + 600*c.Crowd))
+		defer func() { close(release); dumpSize.Store(0) }()
+		r.ClassIf(c.Crowd >= 4096, "more than 4096 unrelated goroutines parked in the process")
+	}
+	if c.Fluent {
+		defer func() {
+			if err == nil {
+				err = fluent(n, r)
+			}
+		}()
 	}
 	if c.Twin {
 		// an independent Limiter created with the same argument holds all of ITS slots for the whole scenario:
@@ -866,7 +935,7 @@ func describe(vs []any) string {
 func TestLimiter(t *testing.T) {
 	st := pb.Stats("limiter")
 	st.SetRule("scenarios: limit -2..6 (below 1 => 3), 1..24 functions that return / yield / park on a harness gate / panic (before or after the gate), drawn gate release order, with or without panic handler, panic messages (string and error values) as drawn or padded to exactly 15..17, 63..65, 127..129, 255..257, 511..513, 1023..1025, 4095..4097, 65535..65537 bytes (at most 1025 when the default reporter prints them), GOMAXPROCS 1..16; the harness releases one gate at a time, each time from a quiescent state, and after Wait() submits n more parked functions that must all run concurrently; monitors: concurrency never above n, exactly-once execution, Wait() only after all finished, handler receives every panic value itself (strings, pointers by identity, runtime faults by type and message), an expired timed Wait followed by idle and reuse (plain mode), no slot leaked (state-based: submitter parked in the Limiter's channel send while fewer than n functions hold slots); schedules inside the Limiter are sampled, not owned; non-trivial = a panic followed by a saturation phase")
-	st.Require("panic message of exactly 255..257 bytes", "panic message of >= 4095 bytes", "second Limiter saturated alongside", "timed Wait on the idle Limiter", "handler checked against a fault raised by the runtime", "nil func submitted", "panic handler configured after the Limiter was first used", "library LogPanic handler with a depth above 32", "function ended by runtime.Goexit", "more than 65536 functions completed on one Limiter before the saturation probe", "Wait called with an empty non-nil duration slice", "timed Wait expired while functions ran, Limiter reused after going idle", "saturated: submitter blocked with all slots held", "panics raised", "limit below 1 (default 3)", "panic without handler", "limit reached")
+	st.Require("more than 4096 unrelated goroutines parked in the process", "Limiter used as one expression, collections while its function is parked, late panic", "panic message of exactly 255..257 bytes", "panic message of >= 4095 bytes", "second Limiter saturated alongside", "timed Wait on the idle Limiter", "handler checked against a fault raised by the runtime", "nil func submitted", "panic handler configured after the Limiter was first used", "library LogPanic handler with a depth above 32", "function ended by runtime.Goexit", "more than 65536 functions completed on one Limiter before the saturation probe", "Wait called with an empty non-nil duration slice", "timed Wait expired while functions ran, Limiter reused after going idle", "saturated: submitter blocked with all slots held", "panics raised", "limit below 1 (default 3)", "panic without handler", "limit reached")
 	// the default panic handler prints to stdout: keep the test output clean (swapped once, not per case)
 	if dn, err := os.OpenFile(os.DevNull, os.O_WRONLY, 0); err == nil {
 		old := os.Stdout
